@@ -454,6 +454,147 @@ def u2b(prog: Program, chk: Check) -> None:
         raise AnalysisError("U2b: no call leaving a START default found (anchor vanished)")
 
 
+# --------------------------------------------------------------------- U4
+TOLERANT = ("isclose", "allclose", "approx", "assert_allclose", "assert_almost_equal")
+
+
+class TimeValues:
+    """Which expressions of dynamics.py hold recorded (absolute) times.
+
+    A value is a time if it is read from a `_times` attribute, made by _parse_time, or is a
+    parameter of a module-level helper that some call site binds to such a value (fixpoint
+    over the module's own helpers).  `kind` types an expression as a point on the time axis
+    ("P"), or anything else (None): P - P is a difference (not a point), P +- x is a point."""
+
+    def __init__(self, prog: Program):
+        self.units = [u for u in prog.units_in("dynamics") if not isinstance(u.node, ast.Lambda)]
+        self.helpers = {u.qual.split(":")[1]: u for u in self.units
+                        if "." not in u.qual.split(":")[1]}
+        self.time_params: Dict[str, Set[str]] = {name: set() for name in self.helpers}
+        self.dus = {u.qual: DefUse(u) for u in self.units}
+        changed = True
+        while changed:
+            changed = False
+            for u in self.units:
+                for c in walk_local(u.node):
+                    if not isinstance(c, ast.Call) or not isinstance(c.func, ast.Name) \
+                            or c.func.id not in self.helpers:
+                        continue
+                    params = [a.arg for a in self.helpers[c.func.id].node.args.args]
+                    bound = list(zip(params, c.args)) + \
+                        [(k.arg, k.value) for k in c.keywords if k.arg in params]
+                    for (prm, arg) in bound:
+                        if prm not in self.time_params[c.func.id] and self.mentions(u, c, arg):
+                            self.time_params[c.func.id].add(prm)
+                            changed = True
+
+    def full(self, u: Unit, at: ast.AST, expr: ast.AST) -> ast.AST:
+        du = self.dus[u.qual]
+        try:
+            return expand(du, du.node_of(at), expr)
+        except Exception:                   # outside the CFG (nested scope): as written
+            return expr
+
+    def _leaf(self, u: Unit, x: ast.AST) -> bool:
+        own = self.time_params.get(u.qual.split(":")[1], set())
+        if isinstance(x, ast.Attribute) and x.attr == "_times":
+            return True
+        if isinstance(x, ast.Call) and (dotted(x.func) or "").split(".")[-1] == "_parse_time":
+            return True
+        return isinstance(x, ast.Name) and x.id in own
+
+    def mentions(self, u: Unit, at: ast.AST, expr: ast.AST) -> bool:
+        return any(self._leaf(u, x) for x in ast.walk(self.full(u, at, expr)))
+
+    def kind(self, u: Unit, e: ast.AST) -> Optional[str]:
+        """'P' if e (already expanded) is a point on the time axis."""
+        if self._leaf(u, e):
+            return "P"
+        if isinstance(e, ast.Subscript):
+            return self.kind(u, e.value)
+        if isinstance(e, ast.Call):
+            fn = (dotted(e.func) or "").split(".")[-1]
+            if fn in ("float", "array", "asarray", "min", "max", "amin", "amax", "copy", "real") and e.args:
+                return self.kind(u, e.args[0])
+            return None
+        if isinstance(e, ast.BinOp) and isinstance(e.op, (ast.Add, ast.Sub)):
+            a, b = self.kind(u, e.left), self.kind(u, e.right)
+            if isinstance(e.op, ast.Sub) and a == "P" and b == "P":
+                return None                 # a difference of times
+            return "P" if "P" in (a, b) else None
+        return None
+
+
+def time_tolerance_sites(prog: Program, tv: Optional[TimeValues] = None):
+    """(unit, call, relative) for every tolerant comparison applied to recorded times;
+    relative is False only when the call says rtol=0 / rel=0."""
+    tv = tv or TimeValues(prog)
+    out, n_cmp = [], 0
+    for u in tv.units:
+        for c in walk_local(u.node):
+            if isinstance(c, ast.Call) and (dotted(c.func) or "").split(".")[-1] in TOLERANT:
+                n_cmp += 1
+                if any(tv.mentions(u, c, a) for a in list(c.args) + [k.value for k in c.keywords]):
+                    kw = {k.arg: k.value for k in c.keywords if k.arg}
+                    r = kw.get("rtol", kw.get("rel"))
+                    rel0 = isinstance(r, ast.Constant) and r.value in (0, 0.0)
+                    out.append((u, c, not rel0))
+    return out, n_cmp
+
+
+def u4(prog: Program, chk: Check) -> None:
+    chk.rule("U4", "the result containers treat recorded times as points on an axis without "
+             "origin: a recorded time is never used as a magnitude (abs(t), c*t, t/c, t**k) and "
+             "never compared through a tolerance with a relative part (numpy's default rtol "
+             "merges the grid times t and t + dt once |t| > 1e5*dt - the result would depend on "
+             "the time origin); differences of times, comparisons of two times and bisection are "
+             "free", floor=3)
+    tv = TimeValues(prog)
+    sites, n_cmp = time_tolerance_sites(prog, tv)
+    for (u, c, relative) in sites:
+        chk.add("U4", u, f"{norm(c)[:60]}", not relative,
+                "absolute tolerance only" if not relative else
+                "recorded times are compared with a relative tolerance in the result container: "
+                "with numpy's default rtol = 1e-5 the grid times t and t + dt coincide once "
+                "|t| > 1e5*dt", c)
+    n_mag = 0
+    n_pts = 0
+    for u in tv.units:
+        for st in walk_local(u.node):
+            if not isinstance(st, ast.expr) or isinstance(st, (ast.Name, ast.Constant)):
+                continue
+            if isinstance(st, ast.Call) and (dotted(st.func) or "").split(".")[-1] in \
+                    ("abs", "fabs", "absolute") and st.args:
+                operand, how = st.args[0], "abs(time)"
+            elif isinstance(st, ast.BinOp) and isinstance(st.op, (ast.Mult, ast.Div, ast.Pow,
+                                                                  ast.FloorDiv, ast.Mod)):
+                operand, how = None, "time scaled"
+            else:
+                if tv._leaf(u, st):
+                    n_pts += 1
+                continue
+            ops = [operand] if operand is not None else [st.left, st.right]
+            for o in ops:
+                if tv.kind(u, tv.full(u, st, o)) == "P":
+                    n_mag += 1
+                    chk.add("U4", u, f"{how}: {norm(st)[:60]}", False,
+                            "a recorded time enters as a magnitude: the value depends on where "
+                            "the time origin is (only differences of times are translation "
+                            "invariant)", st)
+    chk.add("U4", prog.module("dynamics"),
+            f"{n_pts} reads of recorded times, {n_cmp} tolerant comparisons ({len(sites)} on times), "
+            f"{n_mag} uses of a time as a magnitude; time-valued helper parameters: "
+            f"{ {k: sorted(v) for k, v in tv.time_params.items() if v} }",
+            n_pts >= 10, "" if n_pts >= 10 else
+            "fewer reads of recorded times than confirmed by hand: the time leaves are not recognised")
+    for q in ("dynamics:Dynamics.add", "dynamics:MeanFieldDynamics.add"):
+        u = prog.unit(q)
+        chk.saw(u)
+        chk.add("U4", u, "times enter through _parse_time / self._times",
+                any(tv._leaf(u, x) for x in walk_local(u.node)),
+                "" , u.node)
+
+
 def run(prog: Program, chk: Check) -> None:
     chk.explanation = (
         "Decides every place where an absolute time is manufactured or consumed: if each such "
@@ -472,3 +613,4 @@ def run(prog: Program, chk: Check) -> None:
     chk.call(u1_counts, prog, chk, TimeForms(prog))
     chk.call(u2, prog, chk)
     chk.call(u2b, prog, chk)
+    chk.call(u4, prog, chk)
